@@ -34,6 +34,7 @@ type Witness struct {
 	Op     string `json:"op,omitempty"`
 	DER    string `json:"der_hex"`
 	Detail string `json:"detail,omitempty"`
+	Light  bool   `json:"light,omitempty"` // the unit is evaluated with C02's reduced operation set
 }
 
 // Viol is one violation signature with its first (smallest) witness.
@@ -155,7 +156,7 @@ func (x *ItemCtx) Violation(sig, op, detail string) {
 		v.N++
 		return
 	}
-	x.A.Viol[sig] = &Viol{Sig: sig, N: 1, W: Witness{Mode: x.W.Mode, Unit: x.U.Name, Item: x.Idx, Desc: x.Desc, Op: op, DER: hex.EncodeToString(x.DER), Detail: detail}}
+	x.A.Viol[sig] = &Viol{Sig: sig, N: 1, W: Witness{Mode: x.W.Mode, Unit: x.U.Name, Item: x.Idx, Desc: x.Desc, Op: op, DER: hex.EncodeToString(x.DER), Detail: detail, Light: x.U.Light}}
 }
 
 // Sample keeps an explored case for the evidence file.
@@ -193,6 +194,7 @@ type singleReq struct {
 	DER  string `json:"der_hex"`
 	Base string `json:"base_hex,omitempty"`
 	Seed string `json:"seed,omitempty"`
+	Light bool  `json:"light,omitempty"`
 }
 
 // WorkerMain is the main function of worker processes (and of isolated single
@@ -216,7 +218,7 @@ func WorkerMain(id string, h Handler, mkUnits func(quick bool) []Unit) {
 			fmt.Fprintln(os.Stderr, "single: init:", err)
 			os.Exit(4)
 		}
-		u := &Unit{Name: req.Unit, Base: base, Seed: req.Seed}
+		u := &Unit{Name: req.Unit, Base: base, Seed: req.Seed, Light: req.Light}
 		a := newAcc(-1, req.Item)
 		a.Items = 1
 		h.Item(&ItemCtx{W: w, U: u, UnitIdx: -1, Idx: req.Item, Desc: req.Desc, DER: der, A: a})
@@ -419,7 +421,7 @@ func (p *pool) spawn(mode string, slot int, single bool) (*proc, error) {
 	if !p.c.Quick() {
 		tier = "thorough"
 	}
-	cmd.Env = append(os.Environ(), p.cfg.ID+key+"="+mode, p.cfg.ID+"_PROGRESS="+pr.progf, p.cfg.ID+"_TIER="+tier, "GOMAXPROCS=2", "GOTRACEBACK=all")
+	cmd.Env = append(os.Environ(), p.cfg.ID+key+"="+mode, p.cfg.ID+"_PROGRESS="+pr.progf, p.cfg.ID+"_TIER="+tier, "GOMAXPROCS=1", "GOTRACEBACK=all")
 	cmd.Stderr = pr.stderr
 	var err error
 	if pr.stdin, err = cmd.StdinPipe(); err != nil {
@@ -597,7 +599,7 @@ func (p *pool) isBroken() bool { p.mu.Lock(); defer p.mu.Unlock(); return p.res.
 // RunSingle evaluates one item in an isolated process. finished=false means
 // the process did not return within limit (it was killed); crashed carries the
 // crash class when the process died.
-func RunSingle(c *ev.Ctx, id, mode string, req Witness, base []byte, seed string, limit time.Duration) (a *Acc, finished bool, site, msg string) {
+func RunSingle(c *ev.Ctx, id, mode string, req Witness, base []byte, seed string, light bool, limit time.Duration) (a *Acc, finished bool, site, msg string) {
 	work := filepath.Join(ev.VerifDir, ".work", fmt.Sprintf("%s-single-%d", strings.ToLower(id), os.Getpid()))
 	os.MkdirAll(work, 0o755)
 	defer os.RemoveAll(work)
@@ -606,7 +608,7 @@ func RunSingle(c *ev.Ctx, id, mode string, req Witness, base []byte, seed string
 	if err != nil {
 		return nil, true, "?", "cannot start isolated process: " + err.Error()
 	}
-	blob, _ := json.Marshal(singleReq{Unit: req.Unit, Item: req.Item, Desc: req.Desc, DER: req.DER, Base: hex.EncodeToString(base), Seed: seed})
+	blob, _ := json.Marshal(singleReq{Unit: req.Unit, Item: req.Item, Desc: req.Desc, DER: req.DER, Base: hex.EncodeToString(base), Seed: seed, Light: light})
 	pr.stdin.Write(append(blob, '\n'))
 	pr.stdin.Close()
 	timer := time.NewTimer(limit)
@@ -786,7 +788,7 @@ func (p *pool) handle(mi, slot int, j job, prp **proc, start func() bool, requeu
 					}
 					desc, der, _ := p.regenerate(u, it)
 					sig := fmt.Sprintf("panic@%s: %s [%s]", site, ev.MsgClass(msg), p.opName(op))
-					p.addViol(&Viol{Sig: sig, N: 1, W: Witness{Mode: mode, Unit: p.units[u].Name, Item: it, Desc: desc, Op: p.opName(op), DER: hex.EncodeToString(der),
+					p.addViol(&Viol{Sig: sig, N: 1, W: Witness{Mode: mode, Unit: p.units[u].Name, Item: it, Desc: desc, Op: p.opName(op), DER: hex.EncodeToString(der), Light: p.units[u].Light,
 						Detail: "the worker process died (panic outside the calling goroutine or runtime fatal error): " + msg}})
 					p.mu.Lock()
 					mr.Crashes[op]++
@@ -854,8 +856,8 @@ func (p *pool) handle(mi, slot int, j job, prp **proc, start func() bool, requeu
 					break wait
 				}
 				desc, der, _ := p.regenerate(u, it)
-				w := Witness{Mode: mode, Unit: p.units[u].Name, Item: it, Desc: desc, Op: p.opName(op), DER: hex.EncodeToString(der)}
-				acc, finished, site, msg := RunSingle(p.c, p.cfg.ID, mode, w, p.units[u].Base, p.units[u].Seed, 2*p.cfg.Stall)
+				w := Witness{Mode: mode, Unit: p.units[u].Name, Item: it, Desc: desc, Op: p.opName(op), DER: hex.EncodeToString(der), Light: p.units[u].Light}
+				acc, finished, site, msg := RunSingle(p.c, p.cfg.ID, mode, w, p.units[u].Base, p.units[u].Seed, p.units[u].Light, 2*p.cfg.Stall)
 				switch {
 				case !finished:
 					w.Detail = fmt.Sprintf("no return within %v in a worker and again within %v in an isolated process", p.cfg.Stall, 2*p.cfg.Stall)
@@ -927,7 +929,7 @@ func RunPool(c *ev.Ctx, cfg PoolConfig, units []Unit, order []int) *Result {
 func Order(units []Unit, seed int64) []int {
 	var seeds, model []int
 	for i, u := range units {
-		if u.Kind == "model" {
+		if u.Kind == "model" || u.Kind == "model3" {
 			model = append(model, i)
 		} else {
 			seeds = append(seeds, i)
